@@ -10,10 +10,10 @@ PROPS = {}
 
 # ---------------------------------------------------------------- C16
 PROPS["C16"] = {
-    "level_text": 'One-step refinement of a bounded FIFO: from every RingBuffer state satisfying the representation invariant (all read positions, all fill levels, closed or not, arbitrary item values; capacities 1..8 quick, ..32 thorough) one real Push / Pull / Close is executed symbolically and the post-state, return values, lock release and wake-up are compared with the reference queue. Because each operation is a single mutex-protected critical section (checked on every path), the step result covers operation histories of any length. Consumer loop (asyncprocessor.Processor.run, executed sequentially over the real ring, capacities 1,2,4 / 8): callbacks run once each in acceptance order up to the first that fails or closes the queue, nothing runs afterwards, the error is reported exactly once and before the consumer is marked finished (the channel Close waits on), refusal exactly at capacity, nothing is handed out after Close. Real goroutine schedules are not explored.',
-    "level_note": "Trusted: sync.Mutex/sync.Cond contracts (modelled sequentially, lock state tracked), the engine's SSA semantics (validated by native replay of counterexamples and must-fail twins). Not covered: real scheduler interleavings, Close racing Start, Reset, asyncprocessor goroutine.",
+    "level_text": 'One-step refinement of a bounded FIFO: from every RingBuffer state satisfying the representation invariant (all read positions, all fill levels, closed or not, arbitrary item values; capacities 1..8 quick, ..32 thorough) one real Push / Pull / Close / Reset is executed symbolically and the post-state, return values, lock release and wake-up are compared with the reference queue. Because each operation is a single mutex-protected critical section (checked on every path), the step result covers operation histories of any length. Consumer loop (asyncprocessor.Processor.run, executed sequentially over the real ring, capacities 1,2,4 / 8): callbacks run once each in acceptance order up to the first that fails or closes the queue, nothing runs afterwards, the error is reported exactly once and before the consumer is marked finished (the channel Close waits on), refusal exactly at capacity, nothing is handed out after Close. Real goroutine schedules are not explored.',
+    "level_note": "Trusted: sync.Mutex/sync.Cond contracts (modelled sequentially, lock state tracked), the engine's SSA semantics (validated by native replay of counterexamples and must-fail twins). Not covered: real scheduler interleavings, Close racing Start.",
     "runs": [
-        R("ring-size%d" % s, "pkg/ringbuffer", "pkg/ringbuffer", ["ZzC16Push", "ZzC16Pull", "ZzC16Close", "ZzC16Wake"],
+        R("ring-size%d" % s, "pkg/ringbuffer", "pkg/ringbuffer", ["ZzC16Push", "ZzC16Pull", "ZzC16Close", "ZzC16Reset", "ZzC16Wake"],
           flags={"allow": "blocked", "workers": 6}, params={"SIZE": s},
           tiers=("quick", "thorough") if s <= 8 else ("thorough",))
         for s in (1, 2, 4, 8, 16, 32)
@@ -30,7 +30,7 @@ PROPS["C16"] = {
         "pushed items are non-nil (slot occupancy is the full/empty test)",
     ],
     "outside_claim": [
-        "executions of real goroutines under the Go scheduler; Close racing Start (unsynchronised running flag); Reset",
+        "executions of real goroutines under the Go scheduler; Close racing Start (unsynchronised running flag)",
         "capacities above the registered SIZE values",
     ],
 }
@@ -50,7 +50,8 @@ def codec_runs(prefix, suffix="", quick=None, thorough=None, extra_entries=None,
     runs = []
     for pkg, name in CODECS_GEN:
         ents = [prefix + name + suffix] + (extra_entries or {}).get(pkg, [])
-        runs.append(R(pkg[3:], "pkg/format/" + pkg, "pkg/format/" + pkg, ents, flags=dict(flags or {}), extras=ST(pkg) if state else {},
+        fb = [prefix + name + "HistAPI"] if (state and suffix == "Hist" and pkg != "rtpklv") else None
+        runs.append(R(pkg[3:], "pkg/format/" + pkg, "pkg/format/" + pkg, ents, flags=dict(flags or {}), extras=ST(pkg) if state else {}, fallback=fb,
                       quick_params=(quick or {}).get(pkg, (quick or {}).get("*", {})),
                       thorough_params=(thorough or {}).get(pkg, (thorough or {}).get("*", {}))))
     return runs
@@ -94,8 +95,8 @@ _AUD = [
       thorough_params={"MLO": 50, "MHI": 58}),
     R("mpeg1audio-agg", "pkg/format/rtpmpeg1audio", "pkg/format/rtpmpeg1audio", ["ZzC03C06MPEG1Audio"], params={"N": 2, "P": 49, "MLO": 100, "MHI": 101},
       thorough_params={"MLO": 98, "MHI": 103}, tiers=("thorough",)),
-    R("ac3-frag", "pkg/format/rtpac3", "pkg/format/rtpac3", ["ZzC03C06AC3"], params={"N": 1, "P": 140, "MLO": 40, "MHI": 41, "COV1": 0},
-      thorough_params={"MLO": 36, "MHI": 44}),
+    R("ac3-frag", "pkg/format/rtpac3", "pkg/format/rtpac3", ["ZzC03C06AC3"], params={"N": 1, "P": 140, "MLO": 36, "MHI": 37, "COV1": 0},
+      thorough_params={"MLO": 20, "MHI": 44}),  # 36: a 128-byte frame is an exact multiple of the fragment size
     R("ac3-single", "pkg/format/rtpac3", "pkg/format/rtpac3", ["ZzC03C06AC3"], params={"N": 1, "P": 130, "MLO": 129, "MHI": 132},
       thorough_params={"P": 140, "MLO": 128, "MHI": 144}),
     R("ac3-agg", "pkg/format/rtpac3", "pkg/format/rtpac3", ["ZzC03C06AC3"], params={"N": 2, "P": 128, "MLO": 257, "MHI": 259}, tiers=("thorough",)),
